@@ -79,6 +79,10 @@ def gen_cases(tier, seed):
             cases.append({'kind': 'fail', 'fail_class': fc, 'seed': s})
         cases.append({'kind': 'history', 'seed': s})
         cases.append({'kind': 'pair', 'seed': s})
+        cases.append({'kind': 'pair', 'seed': s + 1,
+                      'pair_class': 'long-and-short'})
+        cases.append({'kind': 'pair', 'seed': s + 2,
+                      'pair_class': 'long-and-short'})
     stages = ['mapping', 'stats'] if tier == 'quick' else \
         list(c14.STAGES.keys())
     for st in stages:
@@ -667,8 +671,18 @@ def run_pair(spec, work, ctx):
     set_tmpdir(work / 'tmpdir')
     # two different queries
     q2 = work / 'env' / 'query2.h5ad'
-    mapworld.write_h5ad(q2, env.ref.X[5:20], [f'p{i}' for i in range(15)],
-                        env.ref.genes, encoding='csc')
+    if spec.get('pair_class') == 'long-and-short':
+        # one run much longer than the other: the short one finishes (and
+        # cleans up) while the long one still needs its scratch files
+        nbig = 180
+        Xb = env.ref.X[np.arange(nbig) % len(env.ref.X)]
+        mapworld.write_h5ad(q2, Xb, [f'p{i}' for i in range(nbig)],
+                            env.ref.genes, encoding='csc')
+        ctx.bump('concurrent_pairs_long_and_short')
+    else:
+        mapworld.write_h5ad(q2, env.ref.X[5:20],
+                            [f'p{i}' for i in range(15)],
+                            env.ref.genes, encoding='csc')
     shared_s = work / 'shared_scratch'
     shared_o = work / 'shared_out'
     shared_s.mkdir()
@@ -724,13 +738,17 @@ with pw.quiet():
         cfgs[tag] = cfg
         cp = work / f'pair_{tag}.json'
         cp.write_text(json.dumps(cfg))
-        skew = float(rng.uniform(0, 0.15))
+        skew = float(rng.uniform(0, 0.1))
         procs.append(subprocess.Popen(
             [sys.executable, str(sp), str(cp), str(barrier), str(skew)],
             env=dict(os.environ), stdout=subprocess.DEVNULL,
             stderr=subprocess.PIPE))
     import time
     time.sleep(3.0)            # both interpreters imported and waiting
+    # release both just after a whole second: anything a run derives from
+    # a one-second time stamp is then the same for the two
+    now = time.time()
+    time.sleep((1.0 - (now % 1.0)) + 0.03)
     barrier.write_text('')
     errs = []
     for p in procs:
@@ -829,7 +847,8 @@ def run_case(spec, work):
         if saved_tmp[0] is not None:
             os.environ['TMPDIR'] = saved_tmp[0]
         tempfile.tempdir = saved_tmp[1]
-    feat = [kind, spec.get('fail_class') or spec.get('stage') or '']
+    feat = [kind, spec.get('fail_class') or spec.get('stage')
+            or spec.get('pair_class') or '']
     if note is not None and not ctx.viol:
         return {'violations': [], 'counters': ctx.counters,
                 'inconclusive': note, 'features': None, 'nontrivial': False}
